@@ -46,9 +46,9 @@ namespace verif
         }
         Ev& i(const char* k, long long v)
         {
-            if (v > 2147483646LL || v < -2147483646LL)
+            if (v > 999999999LL || v < -999999999LL)
             {
-                v    = v > 0 ? 2147483647LL : -2147483647LL;
+                v    = v > 0 ? 1000000000LL : -1000000000LL;
                 ovf_ = true;
             }
             key(k);
@@ -57,11 +57,11 @@ namespace verif
         }
         Ev& u(const char* k, std::size_t v)
         {
-            if (v > 2147483646ULL)
+            if (v > 999999999ULL)
             {
                 ovf_ = true;
                 key(k);
-                buf_ += "2147483647";
+                buf_ += "1000000000";
                 return *this;
             }
             return i(k, static_cast<long long>(v));
@@ -70,14 +70,14 @@ namespace verif
         Ev& uc(const char* k, std::size_t v)
         {
             key(k);
-            buf_ += std::to_string(v > 2147483646ULL ? 2147483647ULL : v);
+            buf_ += std::to_string(v > 999999999ULL ? 1000000000ULL : v);
             return *this;
         }
         // signed silent clamp (e.g. next_capacity() of an exhausted fixed source wraps by design)
         Ev& ic(const char* k, long long v)
         {
-            if (v > 2147483646LL || v < -2147483646LL)
-                v = 2147483647LL;
+            if (v > 999999999LL || v < -999999999LL)
+                v = 1000000000LL;
             key(k);
             buf_ += std::to_string(v);
             return *this;
